@@ -531,6 +531,36 @@ Dedup(s, acc) == IF s = <<>> THEN acc
                  ELSE Dedup(Tail(s), Append(acc, Head(s)))
 DiskView == [disk EXCEPT !.reports = Dedup(@, <<>>)]
 
+(* HTTP API: what a request that fails validation is answered with, by     *)
+(* endpoint, method and request class (the state independent part of the    *)
+(* handlers: method check, parameter / body parsing).  Requests that pass   *)
+(* validation reach a critical section and are specified by the actions     *)
+(* above.  A handler never panics, whatever the request.                    *)
+Endpoints == {"all-device-stats", "authorized-servers", "authorize-equipment", "equipment",
+              "equipment-migrate", "register-gca", "recent-reports", "geo-stats", "archive"}
+AllowedMethods(ep) ==
+  CASE ep \in {"authorize-equipment", "equipment-migrate", "register-gca"} -> {"POST"}
+    [] ep = "authorized-servers" -> {"GET", "POST"}
+    [] OTHER -> {"GET"}
+
+(* request classes: "wrong-method", "bad-json", "zero-json" (well formed,   *)
+(* all fields zero: no valid signature), "param-missing", "param-garbage",  *)
+(* "param-misaligned", "key-unknown", "body-on-get", "plain"                *)
+HttpExpected(ep, method, cls) ==
+  IF method \notin AllowedMethods(ep) THEN {405}
+  ELSE CASE cls = "bad-json" -> (IF ep = "authorized-servers" THEN {500} ELSE {400})
+         [] cls = "zero-json" -> {500}
+         [] cls \in {"param-missing", "param-garbage", "param-misaligned"} -> {400}
+         [] cls = "key-unknown" -> {500}
+         [] cls = "body-on-get" -> (IF ep = "archive" THEN {400} ELSE {200, 400, 500})
+         [] cls = "plain" ->
+              (CASE ep = "equipment" -> {200}
+                 [] ep = "authorized-servers" -> {200}
+                 [] ep = "archive" -> {200, 429}
+                 [] ep = "geo-stats" -> {400, 500}      \* needs the network: offline it fails cleanly
+                 [] OTHER -> {200, 400, 500})
+         [] OTHER -> {200, 301, 400, 404, 405, 429, 500}
+
 (* C10: bit i of the sync bitfield is set iff a (possibly banned) record is *)
 (* held for timeslot offset + i; unknown and banned ids are refused        *)
 SyncBitsOK ==
